@@ -78,7 +78,8 @@ Fixpoint ok_stmt (il : bool) (B : list str) (s : stmt) {struct s} : bool :=
   let fix okb (il : bool) (B : list str) (l : list stmt) {struct l} : bool :=
     match l with [] => true | s :: l => ok_stmt il B s && okb il (after B s) l end in
   match s with
-  | SAssign x e => src_nameb x && negb (mem_str x (fnames FT)) && ok_rhs (B ++ CD) e
+  | SAssign x e =>     (* a new local may not shadow a captured data variable *)
+    src_nameb x && negb (mem_str x (fnames FT)) && (mem_str x B || negb (mem_str x CD)) && ok_rhs (B ++ CD) e
   | SOpAssign x o e => arith5 o && src_nameb x && mem_str x B && ok_rhs (B ++ CD) e
   | SPrint e => ok_rhs (B ++ CD) e
   | SExpr e => ok_rhs (B ++ CD) e
@@ -91,10 +92,10 @@ Fixpoint ok_stmt (il : bool) (B : list str) (s : stmt) {struct s} : bool :=
     ok_expr (B ++ CD) a && ok_expr (B ++ CD) b &&
     match nm, collide with
     | Some x, false =>   (* a fresh counter: a variable of the enclosing block for the duration of the loop *)
-      src_nameb x && negb (mem_str x (fnames FT)) && negb (mem_str x B) && negb (mem_str x (used_e b)) && step_ok (x :: B) st && okb true (x :: B) body
+      src_nameb x && negb (mem_str x (fnames FT)) && negb (mem_str x B) && negb (mem_str x (used_e b)) && step_ok ((x :: B) ++ CD) st && okb true (x :: B) body
     | Some x, true =>    (* the counter is an existing variable (the upper bound mentions no variable) *)
-      src_nameb x && negb (mem_str x (fnames FT)) && mem_str x B && match used_e b with [] => true | _ => false end && step_ok B st && okb true B body
-    | None, false => step_ok B st && okb true B body     (* a hidden counter *)
+      src_nameb x && negb (mem_str x (fnames FT)) && mem_str x B && match used_e b with [] => true | _ => false end && step_ok (B ++ CD) st && okb true B body
+    | None, false => step_ok (B ++ CD) st && okb true B body     (* a hidden counter *)
     | None, true => false
     end
   | SBreak => il
@@ -117,9 +118,9 @@ Proof. reflexivity. Qed.
 Lemma ok_SFrom : forall il B a b incl st nm collide body, ok_stmt il B (SFrom a b incl st nm collide body) =
   ok_expr (B ++ CD) a && ok_expr (B ++ CD) b &&
   match nm, collide with
-  | Some x, false => src_nameb x && negb (mem_str x (fnames FT)) && negb (mem_str x B) && negb (mem_str x (used_e b)) && step_ok (x :: B) st && ok_block true (x :: B) body
-  | Some x, true => src_nameb x && negb (mem_str x (fnames FT)) && mem_str x B && match used_e b with [] => true | _ => false end && step_ok B st && ok_block true B body
-  | None, false => step_ok B st && ok_block true B body
+  | Some x, false => src_nameb x && negb (mem_str x (fnames FT)) && negb (mem_str x B) && negb (mem_str x (used_e b)) && step_ok ((x :: B) ++ CD) st && ok_block true (x :: B) body
+  | Some x, true => src_nameb x && negb (mem_str x (fnames FT)) && mem_str x B && match used_e b with [] => true | _ => false end && step_ok (B ++ CD) st && ok_block true B body
+  | None, false => step_ok (B ++ CD) st && ok_block true B body
   | None, true => false
   end.
 Proof. intros il B a b incl st [x|] [|] body; reflexivity. Qed.
